@@ -10,11 +10,13 @@
  "level": "B(4)",
  "tier": "wip",
  "harness": "h_rb_test",
- "unwind": 16,
+ "unwind": 8,
+ "unwindset": {"walk.0": 16},
  "unwind_reason": "BOUNDED: at most 4 extents (tree height <= 3, walk of <= 6 nodes needs 14 steps); unwinding assertions on",
  "sources": ["lib/ext2fs/rbtree.c"],
  "functions": ["lib/ext2fs/blkmap64_rb.c:rb_test_bmap", "lib/ext2fs/blkmap64_rb.c:rb_test_bit"],
  "assumes": ["BOUNDED: tree of <= 4 well-formed extents, every red-black shape, arbitrary cursors", "argument inside [start, real_end] (guaranteed by the generic layer)"],
+ "backend": "kissat",
  "native": true
 }
 */
@@ -25,11 +27,13 @@
  "level": "B(4)",
  "tier": "wip",
  "harness": "h_rb_insert",
- "unwind": 16,
+ "unwind": 8,
+ "unwindset": {"walk.0": 16},
  "unwind_reason": "BOUNDED: at most 4 extents before, 5 after; unwinding assertions on",
  "sources": ["lib/ext2fs/rbtree.c"],
  "functions": ["lib/ext2fs/blkmap64_rb.c:rb_insert_extent", "lib/ext2fs/blkmap64_rb.c:rb_mark_bmap", "lib/ext2fs/blkmap64_rb.c:rb_mark_bmap_extent"],
  "assumes": ["BOUNDED: tree of <= 4 well-formed extents, every red-black shape, arbitrary cursors", "range inside [start, real_end], count >= 1"],
+ "backend": "kissat",
  "native": true
 }
 */
@@ -40,11 +44,14 @@
  "level": "B(4)",
  "tier": "wip",
  "harness": "h_rb_remove",
- "unwind": 16,
+ "defines": ["RB_CAP=2"],
+ "unwind": 8,
+ "unwindset": {"walk.0": 16},
  "unwind_reason": "BOUNDED: at most 4 extents before, 5 after (split); unwinding assertions on",
  "sources": ["lib/ext2fs/rbtree.c"],
  "functions": ["lib/ext2fs/blkmap64_rb.c:rb_remove_extent", "lib/ext2fs/blkmap64_rb.c:rb_unmark_bmap", "lib/ext2fs/blkmap64_rb.c:rb_unmark_bmap_extent"],
  "assumes": ["BOUNDED: tree of <= 4 well-formed extents, every red-black shape, arbitrary cursors", "range inside [start, real_end], count >= 1"],
+ "backend": "kissat",
  "native": true
 }
 */
@@ -55,11 +62,13 @@
  "level": "B(4)",
  "tier": "wip",
  "harness": "h_rb_test_clear",
- "unwind": 16,
+ "unwind": 8,
+ "unwindset": {"walk.0": 16},
  "unwind_reason": "BOUNDED: at most 4 extents; unwinding assertions on",
  "sources": ["lib/ext2fs/rbtree.c"],
  "functions": ["lib/ext2fs/blkmap64_rb.c:rb_test_clear_bmap_extent"],
  "assumes": ["BOUNDED: tree of <= 4 well-formed extents, every red-black shape, arbitrary cursors", "range inside [start, real_end], len >= 1"],
+ "backend": "kissat",
  "native": true
 }
 */
@@ -70,11 +79,13 @@
  "level": "B(4)",
  "tier": "wip",
  "harness": "h_rb_ffz",
- "unwind": 16,
+ "unwind": 8,
+ "unwindset": {"walk.0": 16},
  "unwind_reason": "BOUNDED: at most 4 extents; unwinding assertions on",
  "sources": ["lib/ext2fs/rbtree.c"],
  "functions": ["lib/ext2fs/blkmap64_rb.c:rb_find_first_zero"],
  "assumes": ["BOUNDED: tree of <= 4 well-formed extents, every red-black shape, arbitrary cursors", "bitmap start <= start <= end <= bitmap end (checked by the generic layer)"],
+ "backend": "kissat",
  "native": true
 }
 */
@@ -85,11 +96,13 @@
  "level": "B(4)",
  "tier": "wip",
  "harness": "h_rb_ffs",
- "unwind": 16,
+ "unwind": 8,
+ "unwindset": {"walk.0": 16},
  "unwind_reason": "BOUNDED: at most 4 extents; unwinding assertions on",
  "sources": ["lib/ext2fs/rbtree.c"],
  "functions": ["lib/ext2fs/blkmap64_rb.c:rb_find_first_set"],
  "assumes": ["BOUNDED: tree of <= 4 well-formed extents, every red-black shape, arbitrary cursors", "bitmap start <= start <= end <= bitmap end (checked by the generic layer)"],
+ "backend": "kissat",
  "native": true
 }
 */
@@ -105,6 +118,41 @@
  "sources": ["lib/ext2fs/rbtree.c", "lib/ext2fs/bitops.c"],
  "functions": ["lib/ext2fs/blkmap64_rb.c:rb_get_bmap_range"],
  "assumes": ["BOUNDED: tree of <= 4 well-formed extents, every red-black shape, arbitrary cursors", "BOUNDED: 1 <= num <= 64 (8-byte output buffer with arbitrary previous content)", "range inside [start, real_end]"],
+ "backend": "kissat",
+ "native": true
+}
+*/
+/* VERIF-UNIT
+{
+ "name": "rb_set_bmap_range",
+ "props": ["C16"],
+ "level": "B(2)",
+ "tier": "wip",
+ "harness": "h_rb_set_range",
+ "unwind": 8,
+ "unwindset": {"walk.0": 16},
+ "unwind_reason": "BOUNDED: at most 2 extents before, num <= 6 bits (at most 3 runs inserted, 5 extents after); unwinding assertions on",
+ "sources": ["lib/ext2fs/rbtree.c", "lib/ext2fs/bitops.c"],
+ "functions": ["lib/ext2fs/blkmap64_rb.c:rb_set_bmap_range"],
+ "assumes": ["BOUNDED: tree of <= 2 well-formed extents, arbitrary cursors", "BOUNDED: 1 <= num <= 6", "range inside [start, real_end]"],
+ "backend": "kissat",
+ "native": true
+}
+*/
+/* VERIF-UNIT
+{
+ "name": "rb_resize_bmap",
+ "props": ["C16"],
+ "level": "B(4)",
+ "tier": "wip",
+ "harness": "h_rb_resize",
+ "unwind": 8,
+ "unwindset": {"walk.0": 16},
+ "unwind_reason": "BOUNDED: at most 4 extents; unwinding assertions on",
+ "sources": ["lib/ext2fs/rbtree.c"],
+ "functions": ["lib/ext2fs/blkmap64_rb.c:rb_resize_bmap", "lib/ext2fs/blkmap64_rb.c:rb_truncate"],
+ "assumes": ["BOUNDED: tree of <= 4 well-formed extents, every red-black shape, arbitrary cursors", "start <= new_end <= new_real_end, new_real_end - start < 2^62"],
+ "backend": "kissat",
  "native": true
 }
 */
@@ -229,5 +277,45 @@ void h_rb_get_range(void)
 	check_unchanged();
 	if (IN.n == 4 && IN.num > 40) REACH("4 extents, long range");
 	if (IN.n == 0) REACH("empty tree");
+	REACH("end");
+}
+
+void h_rb_set_range(void)
+{
+	build_rb();
+	ASSUME(IN.n <= 2);
+	ASSUME(IN.num >= 1 && IN.num <= 6);
+	ASSUME(IN.arg >= IN.start && IN.arg <= IN.real_end && IN.num - 1 <= IN.real_end - IN.arg);
+	unsigned char *in = malloc(8);
+	ASSUME(in != 0);
+	for (int i = 0; i < 8; i++)
+		in[i] = IN.buf[i];
+	unsigned long long s = IN.arg - IN.start;
+	errcode_t r = rb_set_bmap_range(&BM, IN.arg, IN.num, in);
+	CHECK(r == 0, "set_bmap_range succeeds");
+	walk();
+	CHECK(well_formed(), "set_bmap_range preserves well_formed");
+	CHECK(view(verif_k) == (ref_member(verif_k) || (IN_RANGE_REL(verif_k, s, IN.num) && ((IN.buf[(verif_k - s) >> 3] >> ((verif_k - s) & 7)) & 1))),
+	      "set_bmap_range: the set gains exactly the bits set in the input buffer");
+	if (IN.n == 2 && WN == 5) REACH("three runs inserted");
+	REACH("end");
+}
+
+void h_rb_resize(void)
+{
+	build_rb();
+	ASSUME(IN.arg >= IN.start && IN.arg <= IN.arg2 && IN.arg2 - IN.start < (1ULL << 62));
+	unsigned long long keep = (IN.arg < IN.end ? IN.arg : IN.end) - IN.start;	/* last bit that survives */
+	errcode_t r = rb_resize_bmap(&BM, IN.arg, IN.arg2);
+	CHECK(r == 0, "resize succeeds");
+	CHECK(BM.end == IN.arg && BM.real_end == IN.arg2 && BM.start == IN.start, "resize installs the new geometry");
+	walk();
+	CHECK(well_formed(), "resize preserves well_formed");
+	int expect = verif_k <= keep ? ref_member(verif_k) :
+		     verif_k <= IN.arg - IN.start ? 0 :
+		     verif_k <= IN.arg2 - IN.start ? 1 : 0;	/* padding (new_end, new_real_end] is marked, nothing beyond */
+	CHECK(view(verif_k) == expect, "resize: members <= min(old end, new end) kept, new tail empty, padding marked");
+	if (IN.n == 4 && WN == 2) REACH("4 extents truncated");
+	if (IN.n == 4 && IN.arg > IN.end) REACH("grow");
 	REACH("end");
 }
